@@ -231,4 +231,268 @@ theorem seqLoop_picks_subset (cf : Conf) (k : Kind) (g : G) (tasks cs : List Nat
       · rw [hp]; exact pick_mem k t ts c
       · exact nextOf_subset cf k (t :: ts) _ _ (pick_mem k t ts c) p (ih _ _ p hp)
 
+/-! ### one run inside a sequential session -/
+
+/-- no other run with `r`'s executable ever gets a 127 -/
+def NoSharedNF (cf : Conf) (r : Nat) (g : G) : Prop :=
+  ∀ q, q ≠ r → (cf.run q).exe = (cf.run r).exe →
+    (g.rs q).t.exeMissing = false ∧ ∀ o ∈ (g.rs q).script, classify (cf.run q).cfg o ≠ .notFound
+
+/-- `r` has no build command that could fail -/
+def NoBuild (cf : Conf) (r : Nat) : Prop := cf.doBuilds = false ∨ (cf.run r).builds = []
+
+theorem classify_default (c : Cfg) : classify c defaultOutcome ≠ .notFound := by
+  unfold defaultOutcome classify
+  simp
+
+theorem nextOutcome_mem (l : List Outcome) :
+    ((nextOutcome l).1 = defaultOutcome ∨ (nextOutcome l).1 ∈ l) ∧ ∀ o ∈ (nextOutcome l).2, o ∈ l := by
+  cases l with
+  | nil => simp [nextOutcome]
+  | cons a l => simp only [nextOutcome]; exact ⟨Or.inr (by simp), fun o ho => by simp [ho]⟩
+
+/-- `execute_run` keeps what the 127-clause looks at unless the outcome is a 127 -/
+theorem runStep_keeps (rc : RunCfg) (s : RunSt)
+    (h1 : s.t.exeMissing = false) (h2 : ∀ o ∈ s.script, classify rc.cfg o ≠ .notFound) :
+    (runStep rc s).1.t.exeMissing = false ∧ ∀ o ∈ (runStep rc s).1.script, classify rc.cfg o ≠ .notFound := by
+  unfold runStep
+  split
+  · exact ⟨h1, h2⟩
+  · split
+    · exact ⟨h1, h2⟩
+    · obtain ⟨m1, m2⟩ := nextOutcome_mem s.script
+      have hnf : classify rc.cfg (nextOutcome s.script).1 ≠ .notFound := by
+        rcases m1 with m1 | m1
+        · rw [m1]; exact classify_default _
+        · exact h2 _ m1
+      refine ⟨?_, fun o ho => h2 o (m2 o ho)⟩
+      simp only [apply]
+      split <;> simp_all
+
+theorem execRun_other (cf : Conf) (g : G) (p r : Nat) (h : r ≠ p) : (execRun cf g p).g.rs r = g.rs r := by
+  unfold execRun
+  simp only
+  split
+  · simp [upd_other _ _ _ _ h]
+  · split <;> simp [upd_other _ _ _ _ h]
+
+/-- what `execute_run` on `p` does to `p` itself, as far as the 127-clause is concerned -/
+theorem execRun_self_keeps (cf : Conf) (g : G) (p : Nat)
+    (h1 : (g.rs p).t.exeMissing = false) (h2 : ∀ o ∈ (g.rs p).script, classify (cf.run p).cfg o ≠ .notFound) :
+    ((execRun cf g p).g.rs p).t.exeMissing = false ∧
+    ∀ o ∈ ((execRun cf g p).g.rs p).script, classify (cf.run p).cfg o ≠ .notFound := by
+  unfold execRun
+  simp only
+  split
+  · simp only [upd_same]; exact runStep_keeps _ _ h1 h2
+  · split
+    · simp only [upd_same]; exact ⟨h1, h2⟩
+    · simp only [upd_same]; exact runStep_keeps _ _ h1 h2
+
+theorem execRun_noBuild (cf : Conf) (g : G) (r : Nat) (hb : NoBuild cf r) :
+    (execRun cf g r).g.rs = upd g.rs r (runStep (cf.run r) (g.rs r)).1 ∧
+    (execRun cf g r).evs = (runStep (cf.run r) (g.rs r)).2 ∧
+    (execRun cf g r).completed = runDone (cf.run r) (runStep (cf.run r) (g.rs r)).1 ∧
+    (execRun cf g r).failedBuilding = false := by
+  unfold execRun
+  have : ((cf.run r).adapterKnown = false ∨ cf.doBuilds = false ∨ (cf.run r).builds = [] ∨
+          shouldTerminate (cf.run r).cfg (g.rs r).t = true) := by
+    rcases hb with hb | hb
+    · right; left; exact hb
+    · right; right; left; exact hb
+  simp only [this, if_true, and_self]
+
+theorem NoSharedNF_of_markOnly (cf : Conf) (r : Nat) (g g' : G) (h : NoSharedNF cf r g)
+    (hm : ∀ q, markOnly (g.rs q) (g'.rs q)) : NoSharedNF cf r g' := by
+  intro q hq he
+  obtain ⟨a, b⟩ := h q hq he
+  obtain ⟨m1, _, _, m4, _⟩ := hm q
+  exact ⟨by rw [m4]; exact a, by rw [m1]; exact b⟩
+
+theorem requeue_nodup (k : Kind) (tasks : List Nat) (r : Nat) (h : tasks.Nodup) : (requeue k tasks r).Nodup := by
+  cases k <;> simp only [requeue]
+  · exact h
+  · rw [List.nodup_append]
+    refine ⟨h.erase r, by simp, ?_⟩
+    intro a ha b hb
+    simp at hb; subst hb
+    intro e; subst e
+    exact (List.Nodup.mem_erase_iff h).mp ha |>.1 rfl
+  · exact h
+
+theorem nextOf_nodup (cf : Conf) (k : Kind) (tasks : List Nat) (r : Nat) (a : StepRes) (h : tasks.Nodup) :
+    (nextOf cf k tasks r a).2.Nodup := by
+  unfold nextOf
+  split
+  · exact h.erase r
+  · split
+    · split
+      · exact ((withoutMissing_spec cf r a.g (tasks.erase r)).2.2.2.2.1).nodup (h.erase r)
+      · exact h.erase r
+    · exact requeue_nodup k tasks r h
+
+theorem mem_requeue (k : Kind) (tasks : List Nat) (p q : Nat) (hq : q ∈ tasks) : q ∈ requeue k tasks p := by
+  cases k <;> simp only [requeue]
+  · exact hq
+  · by_cases e : q = p
+    · simp [e]
+    · simp [List.mem_erase_of_ne e, hq]
+  · exact hq
+
+/-- a step on another run `p`: `r` is untouched, stays in the task list, and the
+hypotheses are preserved -/
+theorem nextOf_other (cf : Conf) (k : Kind) (g : G) (tasks : List Nat) (p r : Nat) (hpr : r ≠ p)
+    (hns : NoSharedNF cf r g) :
+    let nx := nextOf cf k tasks p (execRun cf g p)
+    nx.1.rs r = g.rs r ∧ NoSharedNF cf r nx.1 ∧ (r ∈ tasks → r ∈ nx.2) := by
+  intro nx
+  have hr0 : (execRun cf g p).g.rs r = g.rs r := execRun_other cf g p r hpr
+  -- the hypotheses after the step itself
+  have hns1 : NoSharedNF cf r (execRun cf g p).g := by
+    intro q hq he
+    by_cases hqp : q = p
+    · subst hqp
+      obtain ⟨a, b⟩ := hns q hq he
+      exact execRun_self_keeps cf g q a b
+    · rw [execRun_other cf g p q hqp]; exact hns q hq he
+  -- the stepped run cannot have a missing executable if it shares r's executable
+  have hmiss : ((execRun cf g p).g.rs p).t.exeMissing = true → (cf.run p).exe ≠ (cf.run r).exe := by
+    intro hm he
+    have := (hns1 p (Ne.symm hpr) he).1
+    rw [this] at hm; exact absurd hm (by simp)
+  show (nextOf cf k tasks p (execRun cf g p)).1.rs r = g.rs r ∧
+       NoSharedNF cf r (nextOf cf k tasks p (execRun cf g p)).1 ∧
+       (r ∈ tasks → r ∈ (nextOf cf k tasks p (execRun cf g p)).2)
+  unfold nextOf
+  split
+  · exact ⟨hr0, hns1, fun h => (List.mem_erase_of_ne hpr).mpr h⟩
+  · split
+    · split
+      · rename_i hm
+        obtain ⟨i1, i2, i3, i4, i5, i6⟩ := withoutMissing_spec cf p (execRun cf g p).g (tasks.erase p)
+        have hse : sameExe cf (execRun cf g p).g p r = false := by
+          simp only [sameExe, Bool.and_eq_false_iff, beq_eq_false_iff_ne]
+          right; exact fun e => hmiss hm e.symm
+        refine ⟨by rw [i2 r (Or.inr hse)]; exact hr0, NoSharedNF_of_markOnly cf r _ _ hns1 i1, ?_⟩
+        intro h
+        exact i4 r ((List.mem_erase_of_ne hpr).mpr h) hse
+      · exact ⟨hr0, hns1, fun h => (List.mem_erase_of_ne hpr).mpr h⟩
+    · exact ⟨hr0, hns1, fun h => mem_requeue k tasks p r h⟩
+
+/-- a step on `r` itself (no build of its own): exactly `runStep`; it stays in
+the task list iff it is not done -/
+theorem nextOf_self (cf : Conf) (k : Kind) (g : G) (tasks : List Nat) (r : Nat) (hb : NoBuild cf r)
+    (hnd : tasks.Nodup) (hr : r ∈ tasks) (hns : NoSharedNF cf r g) :
+    let nx := nextOf cf k tasks r (execRun cf g r)
+    nx.1.rs r = (runStep (cf.run r) (g.rs r)).1 ∧ NoSharedNF cf r nx.1 ∧
+    (r ∈ nx.2 ↔ runDone (cf.run r) (runStep (cf.run r) (g.rs r)).1 = false) := by
+  intro nx
+  obtain ⟨e1, e2, e3, e4⟩ := execRun_noBuild cf g r hb
+  have hself : (execRun cf g r).g.rs r = (runStep (cf.run r) (g.rs r)).1 := by rw [e1, upd_same]
+  have hns1 : NoSharedNF cf r (execRun cf g r).g := by
+    intro q hq he
+    rw [execRun_other cf g r q hq]; exact hns q hq he
+  have hnotin : r ∉ tasks.erase r := fun h => ((List.Nodup.mem_erase_iff hnd).mp h).1 rfl
+  show (nextOf cf k tasks r (execRun cf g r)).1.rs r = _ ∧ NoSharedNF cf r (nextOf cf k tasks r (execRun cf g r)).1 ∧
+       (r ∈ (nextOf cf k tasks r (execRun cf g r)).2 ↔ _)
+  unfold nextOf
+  simp only [e4, Bool.false_eq_true, if_false, e3]
+  cases hd : runDone (cf.run r) (runStep (cf.run r) (g.rs r)).1
+  · simp only [Bool.false_eq_true, if_false]
+    exact ⟨hself, hns1, by simp [mem_requeue k tasks r r hr]⟩
+  · simp only [if_true]
+    split
+    · obtain ⟨i1, i2, i3, i4, i5, i6⟩ := withoutMissing_spec cf r (execRun cf g r).g (tasks.erase r)
+      refine ⟨by rw [i2 r (Or.inl hnotin)]; exact hself, NoSharedNF_of_markOnly cf r _ _ hns1 i1, ?_⟩
+      simp
+      exact fun h => hnotin (i5.subset h)
+    · exact ⟨hself, hns1, by simp [hnotin]⟩
+
+theorem uncompleted_not_done' (cf : Conf) (g : G) (order : List Nat) (r : Nat)
+    (h : r ∈ uncompleted cf g order) : runDone (cf.run r) (g.rs r) = false := by
+  simp only [uncompleted, List.mem_filter, Bool.not_eq_true'] at h
+  have h2 := h.2
+  simp only [runDone, h2, Bool.and_false, Bool.or_false, Bool.and_eq_false_iff]
+  right
+  simp only [shouldTerminate, abandoned, failsConsec, Bool.or_eq_false_iff] at h2
+  exact h2.1.1.1
+
+theorem solo_succ (S : Sys σ ε) (r : Nat) (n : Nat) (s : σ) :
+    solo S r (n + 1) s = ((solo S r n (S.step r s).1).1, (S.step r s).2 ++ (solo S r n (S.step r s).1).2) := rfl
+
+/-- The run-by-run reading of a sequential session. For a run `r` without a
+build of its own and such that no other run with its executable gets a 127:
+its events in the session trace and its final state are those of `r` executed
+alone as often as it was picked; it was picked only while not done; and when the
+scheduler finished, `r` is done. -/
+theorem seq_run_spec (cf : Conf) (k : Kind) (r : Nat) (hb : NoBuild cf r) :
+    ∀ (cs : List Nat) (g : G) (tasks : List Nat), tasks.Nodup → NoSharedNF cf r g →
+      (r ∈ tasks → runDone (cf.run r) (g.rs r) = false) →
+      proj r (seqLoop cf k g tasks cs).trace
+          = (solo (runSys cf) r ((seqLoop cf k g tasks cs).picks.count r) (g.rs r)).2 ∧
+      (seqLoop cf k g tasks cs).g.rs r
+          = (solo (runSys cf) r ((seqLoop cf k g tasks cs).picks.count r) (g.rs r)).1 ∧
+      (∀ j, j < (seqLoop cf k g tasks cs).picks.count r →
+          runDone (cf.run r) (solo (runSys cf) r j (g.rs r)).1 = false) ∧
+      ((seqLoop cf k g tasks cs).finished = true → r ∈ tasks →
+          runDone (cf.run r) ((seqLoop cf k g tasks cs).g.rs r) = true) := by
+  intro cs
+  induction cs with
+  | nil =>
+    intro g tasks _ _ _
+    cases tasks <;> simp [seqLoop, solo, proj]
+  | cons c cs ih =>
+    intro g tasks hnd hns hd0
+    cases tasks with
+    | nil => simp [seqLoop, solo, proj]
+    | cons t ts =>
+      have hpm := pick_mem k t ts c
+      simp only [seqLoop]
+      generalize hp : pick k (t :: ts) c = p at hpm
+      by_cases hpr : p = r
+      · subst hpr
+        obtain ⟨n1, n2, n3⟩ := nextOf_self cf k g (t :: ts) p hb hnd hpm hns
+        obtain ⟨e1, e2, e3, e4⟩ := execRun_noBuild cf g p hb
+        have hnd' := nextOf_nodup cf k (t :: ts) p (execRun cf g p) hnd
+        have ih' := ih (nextOf cf k (t :: ts) p (execRun cf g p)).1 (nextOf cf k (t :: ts) p (execRun cf g p)).2
+          hnd' n2 (by rw [n1]; exact n3.mp)
+        obtain ⟨i1, i2, i3, i4⟩ := ih'
+        rw [n1] at i1 i2 i3
+        simp only [List.count_cons_self, solo_succ, proj_append, proj_tag_same]
+        have hstep : (runSys cf).step p (g.rs p) = runStep (cf.run p) (g.rs p) := rfl
+        rw [hstep, e2]
+        refine ⟨by rw [i1], i2, ?_, ?_⟩
+        · intro j hj
+          cases j with
+          | zero => simpa [solo] using hd0 hpm
+          | succ j =>
+            rw [solo_succ, hstep]
+            exact i3 j (by omega)
+        · intro hfin _
+          by_cases hin : p ∈ (nextOf cf k (t :: ts) p (execRun cf g p)).2
+          · exact i4 hfin hin
+          · have hcount : (seqLoop cf k (nextOf cf k (t :: ts) p (execRun cf g p)).1
+                (nextOf cf k (t :: ts) p (execRun cf g p)).2 cs).picks.count p = 0 := by
+              rw [List.count_eq_zero]
+              exact fun h => hin (seqLoop_picks_subset _ _ _ _ _ p h)
+            rw [i2, hcount]
+            simp only [solo]
+            have : ¬ runDone (cf.run p) (runStep (cf.run p) (g.rs p)).1 = false := fun h => hin (n3.mpr h)
+            simpa using this
+      · have hrp : r ≠ p := fun e => hpr e.symm
+        obtain ⟨n1, n2, n3⟩ := nextOf_other cf k g (t :: ts) p r hrp hns
+        have hnd' := nextOf_nodup cf k (t :: ts) p (execRun cf g p) hnd
+        have hsub := nextOf_subset cf k (t :: ts) p (execRun cf g p) hpm
+        have ih' := ih (nextOf cf k (t :: ts) p (execRun cf g p)).1 (nextOf cf k (t :: ts) p (execRun cf g p)).2
+          hnd' n2 (by rw [n1]; exact fun h => hd0 (hsub r h))
+        obtain ⟨i1, i2, i3, i4⟩ := ih'
+        rw [n1] at i1 i2 i3
+        have hc : (p :: (seqLoop cf k (nextOf cf k (t :: ts) p (execRun cf g p)).1
+                (nextOf cf k (t :: ts) p (execRun cf g p)).2 cs).picks).count r
+            = (seqLoop cf k (nextOf cf k (t :: ts) p (execRun cf g p)).1
+                (nextOf cf k (t :: ts) p (execRun cf g p)).2 cs).picks.count r := by
+          simp [hpr]
+        simp only [hc, proj_append, proj_tag_other r p hpr, List.nil_append]
+        exact ⟨i1, i2, i3, fun hfin hin => i4 hfin (n3 hin)⟩
+
 end RB.Sched
